@@ -25,8 +25,16 @@ from vkit import metagen, tlc, tracecheck
 THR12 = [5, 1, 6, 5, 32768]     # range 5 V, threshold 1.2 V (the default), max int 32768
 THR125 = [5, 1, 5, 4, 32768]    # threshold 1.25 V: exactly representable -> "at threshold" class
 # raw - floor of an analog sample by level and threshold (5 V / 32768 per count: 1.2 V = 7864.32, 1.25 V = 8192)
+# thresholds below 1 V and above 2 V at exactly representable levels: a sample exactly at the threshold must read as 1
+# whatever the threshold (a value left un-thresholded would be cast to 0 below 1 V and to 2 above 2 V)
+THR0625 = [5, 1, 5, 8, 32768]   # 0.625 V = 4096 counts
+THR25 = [5, 1, 5, 2, 32768]     # 2.5 V = 16384 counts
 DIFFS = {"1.2": {0: [0, 0, 3, 41, 7864], 1: [7865, 7866, 12000]},
-         "1.25": {0: [0, 0, 5, 8191], 1: [8192, 8193, 11000]}}
+         "1.25": {0: [0, 0, 5, 8191], 1: [8192, 8193, 11000]},
+         "0.625": {0: [0, 0, 5, 4095], 1: [4096, 4096, 4097, 9000]},
+         "2.5": {0: [0, 0, 5, 16383], 1: [16384, 16384, 16385, 20000]}}
+THRS = {"1.2": THR12, "1.25": THR125, "0.625": THR0625, "2.5": THR25}
+THR_ORDER = ["1.2", "0.625", "2.5", "1.25"]
 NIDQ = dict(mn=2, ma=1, xa=2, dw=1)
 
 
@@ -259,7 +267,7 @@ class Batch:
         self.cases = cases
         self.rng = np.random.default_rng(seed)
         self.thr_name = thr_name
-        self.thr = THR12 if thr_name == "1.2" else THR125
+        self.thr = THRS[thr_name]
         self.seg = []
 
     def build(self, folder, stem):
@@ -310,7 +318,7 @@ class Batch:
         bad = []
         sri = spikeglx.Reader(self.f_imec)
         srn = spikeglx.Reader(self.f_nidq)
-        kw = {} if self.thr_name == "1.2" else {"threshold": 1.25}
+        kw = {} if self.thr_name == "1.2" else {"threshold": self.thr[2] / self.thr[3]}
         try:
             for c, s in zip(self.cases, self.seg):
                 lev = np.asarray(c["x"])
@@ -363,6 +371,8 @@ def run_models(ctx):
     runs = [("mc/MC_SyncBits.tla", "mc/SyncBits_quick.cfg" if ctx.quick else "mc/SyncBits_thorough.cfg", None),
             ("mc/MC_SyncBits.tla", "mc/SyncBits_read12.cfg", None),
             ("mc/MC_SyncBits.tla", "mc/SyncBits_read125.cfg", None),
+            ("mc/MC_SyncBits.tla", "mc/SyncBits_read0625.cfg", None),
+            ("mc/MC_SyncBits.tla", "mc/SyncBits_read25.cfg", None),
             ("mc/MC_TTL.tla", "mc/TTL_steps.cfg", None)]
     exports = []
     if ctx.quick:
@@ -424,7 +434,7 @@ def run(ctx):
     filecases = [cases[i] for i in order[:nfile]]
     nb = 0
     for b0 in range(0, len(filecases), 500):
-        bt = Batch(filecases[b0:b0 + 500], ctx.seed * 1000 + nb, "1.2" if nb % 3 != 2 else "1.25")
+        bt = Batch(filecases[b0:b0 + 500], ctx.seed * 1000 + nb, THR_ORDER[nb % 4])
         bt.build(folder, f"trains{nb}")
         for kind, cl, c, s in bt.run(ctx, "file"):
             ctx.violation(f"ttl:{cl}", f"train {c['x']} written on lines {s['mi'] if kind == 'imec' else s['mn']} of a real "
@@ -503,8 +513,8 @@ def read_cases(ctx, folder, rng):
     # nidq with analog lines around the threshold above per-line floors
     nrec = 6 if ctx.quick else 40
     for i in range(nrec):
-        thr_name = ["1.2", "1.25"][i % 2]
-        thr = THR12 if thr_name == "1.2" else THR125
+        thr_name = THR_ORDER[i % 4]
+        thr = THRS[thr_name]
         n = int(rng.integers(20, 400))
         lev = rng.integers(0, 2, size=(n, NIDQ["xa"]))
         if i % 3 == 0:
@@ -577,7 +587,7 @@ def gold_records(seed):
     words = [int(v) for v in rng.integers(-32768, 32768, size=8)] + [-32768, 255, 256, -2]
     wrec = [{"kind": "word", "w": w, "lines": [((w % 65536) >> k) & 1 for k in range(16)], "exc": ""} for w in words]
     rrec = []
-    for thr_name, thr in (("1.2", THR12), ("1.25", THR125), ("1.2", THR12)):
+    for thr_name, thr in (("1.2", THR12), ("1.25", THR125), ("0.625", THR0625), ("2.5", THR25)):
         n = 30
         lev = rng.integers(0, 2, size=(n, 2))
         d, _ = analog_from_levels(lev, thr_name, rng, 0)
